@@ -1004,21 +1004,30 @@ static int write_char(void *context, cif_value_tp *char_value, int allow_text) {
                 case 2: /* text field */
                     assert(analysis.delim[0] == UCHAR_NL);
                     /* XXX: should really flag more specifically for whether prefixing is enabled */
-                    if (!allow_text || (analysis.contains_text_delim && IS_CIF1(context))) {
-                        result = CIF_DISALLOWED_VALUE;
-                    } else {
-                        /* write as a text block, possibly with line-folding and/or prefixing  */
-                        result = write_text(context, text, analysis.length,
-                                ((analysis.length_first >= LINE_LENGTH(context))
-                                        || (analysis.length_max > LINE_LENGTH(context))
-                                        || analysis.has_reserved_start
-                                        || (analysis.max_semi_run >= (LINE_LENGTH(context) - 1))),
-                                /*
-                                 * prefixing is needed to protect embedded text delimiters, and also to allow folding
-                                 * inside a run of semicolons too long to leave any other fold point
-                                 */
-                                (analysis.contains_text_delim
-                                        || (analysis.max_semi_run >= (LINE_LENGTH(context) - 8 - FOLDING_WINDOW))));
+                    {
+                        int fold = ((analysis.length_first >= LINE_LENGTH(context))
+                                || (analysis.length_max > LINE_LENGTH(context))
+                                || analysis.has_reserved_start
+                                || (analysis.max_semi_run >= (LINE_LENGTH(context) - 1)));
+                        /*
+                         * When the text is folded, its first character begins a line of its own (after the line bearing
+                         * the opening delimiter and the fold flag); if that character is a semicolon then it would be
+                         * taken for the closing delimiter unless the text is also prefixed.
+                         */
+                        int leading_semi = (fold && (analysis.length > 0) && (text[0] == UCHAR_SEMI));
+
+                        if (!allow_text || ((analysis.contains_text_delim || leading_semi) && IS_CIF1(context))) {
+                            result = CIF_DISALLOWED_VALUE;
+                        } else {
+                            /* write as a text block, possibly with line-folding and/or prefixing  */
+                            result = write_text(context, text, analysis.length, fold,
+                                    /*
+                                     * prefixing is needed to protect embedded text delimiters, and also to allow folding
+                                     * inside a run of semicolons too long to leave any other fold point
+                                     */
+                                    (analysis.contains_text_delim || leading_semi
+                                            || (analysis.max_semi_run >= (LINE_LENGTH(context) - 8 - FOLDING_WINDOW))));
+                        }
                     }
                     break;
                 default: /* unexpected value */
